@@ -199,12 +199,12 @@ def run(ctx):
             readers = {"read_body": ra, "async_read_body": rb2}
         else:
             ra, rb2 = decs[a][1], decs[b_][1]
-        sa = sorted(twin_norm(t) for bb, t in ra.calls() if c06.interesting(t))
-        sb = sorted(twin_norm(t) for bb, t in rb2.calls() if c06.interesting(t))
-        ctx.check(sa == sb, "R18.4", ra.loc(), f"twins|{a}", f"{a} and {b_} differ: {sa} vs {sb}", instance=f"{a} == {b_} ({len(sa)} calls)")
+        sa = {twin_norm(t) for bb, t in ra.calls() if c06.interesting(t)}
+        sb = {twin_norm(t) for bb, t in rb2.calls() if c06.interesting(t)}
+        ctx.check(sa == sb, "R18.4", ra.loc(), f"twins|{a}", f"{a} and {b_} use different operations: only blocking {sorted(sa - sb)}, only async {sorted(sb - sa)}", instance=f"{a} == {b_} ({len(sa)} operations)")
     if len(macro) == 2:
-        sa, sb = [sorted(twin_norm(t) for bb, t in x[1].calls() if c06.interesting(t)) for x in macro]
-        ctx.check(sa == sb, "R18.4", macro[0][1].loc(), "twins|ConjureResponseDeserializer", f"macro response deserializers differ: {sa} vs {sb}", instance="ConjureResponseDeserializer twins agree")
+        sa, sb = [{twin_norm(t) for bb, t in x[1].calls() if c06.interesting(t)} for x in macro]
+        ctx.check(sa == sb, "R18.4", macro[0][1].loc(), "twins|ConjureResponseDeserializer", f"macro response deserializers use different operations: {sorted(sa ^ sb)}", instance="ConjureResponseDeserializer twins agree")
     # R18.5 reassembly
     for name, rb in readers.items():
         c06.check_reader(ctx, c, rb, limited=True, rule="R18.5")
